@@ -94,6 +94,8 @@ def _callee(c: ast.Call) -> str:
 def _direct_contains(stmts: list[ast.stmt], pred: Any) -> bool:
     """A call satisfying pred occurs in stmts but not inside a nested Try *body* that has handlers."""
     for s in stmts:
+        if isinstance(s, ast.Try) and s.handlers:
+            continue  # guarded by its own handlers first
         for n in _walk_no_nested_try(s):
             if isinstance(n, ast.Call) and pred(n):
                 return True
@@ -196,6 +198,62 @@ def _read_tables() -> dict[str, dict[str, int | None]]:
     }
 
 
+def _deser_probes() -> list[tuple[str, type]]:
+    import pyarrow as pa
+
+    from vgi_rpc.utils import IPCError
+
+    class _Other(Exception):
+        pass
+
+    return [("keyError", KeyError), ("valueError", ValueError), ("overflowError", OverflowError), ("typeError", TypeError),
+            ("arrowInvalid", pa.ArrowInvalid), ("ipcError", IPCError), ("osError", OSError), ("stopIteration", StopIteration),
+            ("other", _Other)]
+
+
+def _deser_tables() -> dict[str, dict[str, int | None]]:
+    """Effective status of an exception raised by `_deserialize_params` on the unary / init routes: the handler around
+    that call re-raises what it catches as `TypeError` (looked up in the request-reading try); what it does not catch
+    reaches the request-reading try as it is."""
+    import builtins
+
+    out: dict[str, dict[str, int | None]] = {}
+    is_read = lambda c: _callee(c) == "_read_request"  # noqa: E731
+    is_deser = lambda c: _callee(c) == "_deserialize_params"  # noqa: E731
+    for key, modname, rel, fname in (("unaryDeser", "vgi_rpc.http.server._app_unary", f"{SRV}/_app_unary.py", "_run_unary_sync"),
+                                     ("initDeser", "vgi_rpc.http.server._app_stream", f"{SRV}/_app_stream.py", "_run_stream_init_sync")):
+        mod = _module(modname)
+        fn = _func(_tree(rel), fname)
+        outer = _innermost_try(fn, is_read)
+        inner = _innermost_try(fn, is_deser)
+        if inner is outer:
+            inner_handlers: list[tuple[tuple[type, ...] | None, str]] = []
+        else:
+            if not any(n is inner for n in ast.walk(outer)):
+                raise Shape(f"{fname}: the try around _deserialize_params is not inside the request-reading try")
+            inner_handlers = []
+            for h in inner.handlers:
+                if h.type is None:
+                    classes = None
+                else:
+                    v = eval(compile(ast.Expression(h.type), f"<{fname}>", "eval"), vars(mod))  # noqa: S307 - source under test
+                    classes = tuple(v) if isinstance(v, tuple) else (v,)
+                raises = [n for n in ast.walk(h) if isinstance(n, ast.Raise) and isinstance(n.exc, ast.Call)]
+                if len(raises) != 1 or _callee(raises[0].exc) != "TypeError":
+                    raise Shape(f"{fname}: handler around _deserialize_params does not re-raise as TypeError")
+                inner_handlers.append((classes, "TypeError"))
+        tbl: dict[str, int | None] = {}
+        for name, cls in _deser_probes():
+            eff: type = cls
+            for classes, _to in inner_handlers:
+                if classes is None or issubclass(cls, classes):
+                    eff = builtins.TypeError
+                    break
+            tbl[name] = _handler_table(mod, outer, [("x", eff)], fname)["x"]
+        out[key] = tbl
+    return out
+
+
 def _read_request_wraps() -> tuple[bool, bool, bool]:
     """Does `_read_request` re-raise (a) an IPCError of the first batch read, (b) any failure of the kwargs
     materialisation (`f.name`, `.as_py()`) as `RpcError`?  (Both are then caught as RpcError by the HTTP shells.)"""
@@ -258,12 +316,18 @@ def _resolve_method() -> tuple[list[str], int, int, str]:
             nf = _one_status(s, "_resolve_method not-found")
     ct = _func(_tree(f"{SRV}/_responses.py"), "_check_content_type")
     ifs = [n for n in ct.body if isinstance(n, ast.If)]
-    if len(ifs) != 1 or not isinstance(ifs[0].test, ast.Compare) or len(ifs[0].test.ops) != 1:
-        raise Shape("_check_content_type: expected one comparison")
-    cmp_ = ifs[0].test
-    if ast.unparse(cmp_.comparators[0]) != "_ARROW_CONTENT_TYPE" or ast.unparse(cmp_.left) != "content_type":
-        raise Shape("_check_content_type: not compared with _ARROW_CONTENT_TYPE")
-    op = {ast.NotEq: "ne", ast.Eq: "eq"}.get(type(cmp_.ops[0]))
+    if len(ifs) != 1:
+        raise Shape("_check_content_type: expected one guard")
+    t = ifs[0].test
+    op = None
+    if isinstance(t, ast.Compare) and len(t.ops) == 1:
+        if ast.unparse(t.comparators[0]) != "_ARROW_CONTENT_TYPE" or ast.unparse(t.left) != "content_type":
+            raise Shape("_check_content_type: not compared with _ARROW_CONTENT_TYPE")
+        op = {ast.NotEq: "ne", ast.Eq: "eq"}.get(type(t.ops[0]))
+    elif (isinstance(t, ast.UnaryOp) and isinstance(t.op, ast.Not) and isinstance(t.operand, ast.Call)
+          and ast.unparse(t.operand.func) == "content_type.startswith" and len(t.operand.args) == 1
+          and ast.unparse(t.operand.args[0]) == "_ARROW_CONTENT_TYPE"):
+        op = "notPrefix"   # a prefix test: media types that merely *begin* with the Arrow type are let through
     if op is None or nf is None:
         raise Shape("_check_content_type / _resolve_method: unexpected shape")
     return order, _one_status(ifs[0], "_check_content_type"), nf, op
@@ -469,6 +533,7 @@ def emit() -> dict[str, str]:
     tables = _read_tables()
     translated, to, marker = _set_http_status()
     wraps_batch, wraps_kwargs, wraps_empty = _read_request_wraps()
+    deser = _deser_tables()
     order, ct_status, nf_status, ct_op = _resolve_method()
     guards = {c: _resource_guard(c) for c in ("_RpcResource", "_StreamInitResource", "_ExchangeResource")}
     mw = _middleware_order()
@@ -501,6 +566,9 @@ open VgiVerif.HttpReq
 {_tbl("initVal", "ValExc", tables["initVal"])}
 /-- `_run_stream_exchange_sync`, the try around `ipc.open_stream` / `read_next_batch_with_custom_metadata` -/
 {_tbl("exchangeParse", "ParseExc", tables["exchangeParse"])}
+/-- exceptions of `_deserialize_params` (unary / init): status after the handler around the call and the reading try -/
+{_tbl("unaryDeser", "DeserExc", deser["unaryDeser"])}
+{_tbl("initDeser", "DeserExc", deser["initDeser"])}
 /-- `_read_request`: the first batch's `IPCError` / a kwargs materialisation failure is re-raised as `RpcError` -/
 def readWrapsBatchValidation : Bool := {str(wraps_batch).lower()}
 def readWrapsKwargs : Bool := {str(wraps_kwargs).lower()}
@@ -560,6 +628,8 @@ def tables : Tables where
   initParse := initParse
   initVal := initVal
   exchangeParse := exchangeParse
+  unaryDeser := unaryDeser
+  initDeser := initDeser
   readWrapsBatchValidation := readWrapsBatchValidation
   readWrapsKwargs := readWrapsKwargs
   readWrapsEmptyStream := readWrapsEmptyStream
